@@ -15,6 +15,7 @@ import (
 
 
 	"verif/harness/h"
+	_ "verif/harness/warm"
 	"verif/harness/pol"
 	"verif/harness/sel"
 	"verif/harness/val"
